@@ -254,17 +254,22 @@ def check_unrodded(res, rec, key):
     # the heat is converted with coolant properties at the region's own
     # mean temperature of the previous level (for one node: that node)
     t_own = float(np.mean(T0))
-    # (asserted for the six-node model, which refreshes the properties
-    # inside its update; the one-node model uses those in force at entry -
-    # at the first step after activation whatever set-up left there, an
-    # O(dz) lag that is not asserted)
-    if six:
+    # The six-node model refreshes the properties inside its update; the
+    # one-node model uses those in force at entry, which its own previous
+    # step (or its activation) has put at its own temperature. At the very
+    # first step of the sweep nothing of the kind has run yet: whatever
+    # set-up left in the coolant object is used (recorded finding F132).
+    first = bool(float(rec['z0']) == 0.0)
+    # (with constant properties the evaluation temperature is immaterial)
+    if key.get('tdep', True):
         res.close('I7_properties_at_own_mean_temperature',
                   props['T'] - t_own, t_own, 1e-9,
                   '%s region advanced with coolant properties at %.4f K, its '
                   'own mean temperature is %.4f K' % (reg.model, props['T'],
                                                       t_own),
-                  dict(key, stream='six-node'),
+                  dict(key, stream=('six-node' if six else 'single-node'),
+                       **({'first_step_of_sweep': True}
+                          if (first and not six) else {})),
                   {'z': rec['z1'], 'T_used': props['T'], 'T_own': t_own,
                    'nodes': [float(x) for x in np.ravel(T0)]})
     perim6 = (reg.duct_ftf[1] * 6 / np.sqrt(3.0)) / 6.0
@@ -615,4 +620,8 @@ def classify(v, case):
     k = v.get('key', {})
     if v['monitor'] == 'I5_radial_lumping_negligible':
         return 'F17'
+    if v['monitor'] == 'I7_properties_at_own_mean_temperature' and \
+            k.get('stream') == 'single-node' and \
+            k.get('first_step_of_sweep') is True:
+        return 'F132'
     return None
